@@ -9,7 +9,7 @@ from ..report import Ctx
 from ..engines import ownership
 
 
-def check(ctx: Ctx) -> None:
+def _main_check(ctx: Ctx) -> None:
     ctx.explanation = (
         "Ownership analysis: OWN1 every derivation route (Message/sequence/Sequence/Bar/Track/Composition copy, "
         "RelativeSequence.split, Sequence.split, sequences_split_bars, the two view conversions) returns only objects "
@@ -174,3 +174,9 @@ def own3(ctx: Ctx, eng) -> None:
                     else:
                         ctx.ok("OWN3", f"{fi.qualname}: {short(s, 60)}")
     ctx.floor("message field stores", n, 15)
+
+
+def check(ctx: Ctx) -> None:
+    _main_check(ctx)
+    from .common import view_deps
+    view_deps(ctx)
